@@ -244,6 +244,10 @@ def histories(res, r, quick, T, parser, Prettifier, cases, payloads, dist):
         s = fill(r, TEMPLATES[i % len(TEMPLATES)] if i % 3 else r.choice(TEMPLATES))
         tree = parser.parse(s)
         cfg, inst, name = insts[i % len(insts)]
+        if i % 37 == 5:
+            # a call that cannot complete (a tree deeper than the recursion limit), then the history goes on
+            import gentree as _gt
+            dist["aborted_calls"] = dist.get("aborted_calls", 0) + (_gt.aborted_call(inst, T) != "completed")
         judge(res, parser, Prettifier, tree, cfg, inst, ["reuse #%d on %s" % (i, name), "parse(%r)" % s],
               cases, payloads, dist)
         if i % 7 == 0:            # and a second instance on the same object
